@@ -242,6 +242,40 @@ unit that does not call it translates exactly as before):
   emitted in place as a local `fix`); `product(a, b)` as a value (`list_prod`), `for a, b in xs` over a list of pairs;
   dictionary displays `{k: v, **d1, **d2}` on dictionaries keyed by nodes (the stores in order: `d2 ++ d1 ++ [(k, v)]`, newest
   first); a set read through views is iterated in the order `Unit.set_orders[<instance>]` (a Section parameter) decides.
+
+Seventh extension (used by `translator/spfs_gen.py`; everything is switched on by `Unit.use_seventh`, a unit that does not call
+it translates exactly as before; the statement forms are in `_Fun.block7`, tried first for every statement):
+
+* dictionaries keyed by elements, more: `d = {}`, `d[k] = set()`, `d[k].add(e)`, `k in d` / `k not in d`; `for a, b in
+  zip(xs[0:-1], xs[1:])`; `continue`; `x = t.children[i]`; `return lambda ..: e` and `x = f(..)` of a function type;
+  `xs = tuple(C._make(o.m() for _ in range(len(C._fields))) for _ in range(k))` (`make_idiom`), `xs[i].f.m(..)` as a statement
+  (`field_method_stmt`), reads `xs[<literal>].f` hoisted before their statement (`item_field_reads`); `for x in table[a][b]`
+  (`__iter__` of the proxy, the keys taken at loop entry: `Unit.snapshot_iteration`; `Unit.narrowings`: the declared pattern an
+  item must match, else the declared error); `yield from c.keys()` on a reference into the table; `isinstance(c, list)` false
+  on such a reference; `tqdm(xs, ..)` = `xs` (`Unit.use_tqdm`, `strip_tqdm`), `sum(1 for _ in xs)` (`count_idiom`); keyword
+  arguments normalised when they are exactly the next parameters in order (`Unit.kwparams`, dataclasses, record classes:
+  `_KwNormalizer`); methods added in this file to a class imported from another generated file (`Unit.method(.., other=..)`,
+  `Unit.local_sfx`), `cell_call`: that file's cell helpers;
+* `Unit.external_res(py, module, args, ret, coq[, fresh])`: an imported function (`module=None`: a function of the module itself
+  that another part of the generated file translates) that can RAISE: `coq` returns `res ret`; a call is hoisted in evaluation
+  order like the call of a translated function; `fresh`: the list it returns is newly built;
+* `if a and b: BODY` without `else`, b containing a subscript (it can raise): the nested `if a: if b: BODY` it abbreviates;
+* a variable that is not defined before an `if` and that both branches assign on every path reaching their end (`definite7`)
+  is defined after the `if` (the continuation takes it);
+* `x.f.g`, `x.f` of the declared type `option <named tuple>`: AttributeError when it is `None`, what Python raises (`opt_field`);
+* `node in d` / `node not in d` on a declared mapping type: the Coq function `Unit.mapping_mem[<type>]` applied to `d` and the
+  node's identifier; `a == b` / `a != b` on nodes of a binary tree type: `Unit.tree_eqb[<type>]` on the identifiers (identity
+  of the objects);
+* `Unit.singleton_methods` {(class, m)}: `x.m()` yields the object x itself and nothing else -- `for y in x.m()`,
+  `sum(1 for _ in x.m())`; `Unit.noop_methods` {(class, m)}: the statement `x.m()` has no effect the translation models and
+  cannot raise (neither counts as an update of x); `Unit.stderr_print`: `print(f"..", file=sys.stderr)` (`sys` bound by `import
+  sys` only) whose f-string mentions only names and `'<sep>'.join(<sequence variable>)` is no statement;
+* `return f(.., lambda ..: e, ..)`, f a function of the unit: the lambdas become local functions `lambda_1`, .. defined first
+  (building a function has no effect), passed by name; a local function may capture an object of a frozen dataclass; inside the
+  body of a local function whose declared result is a list (`expr7`): `a if c else b`, a tuple display, `range(n)`,
+  `t.traverse(..)` are the lists of their items (the declaration of the function type states that the receiver only iterates
+  the result); `Unit.lookup_lists[(nodedict type, list type)]`: a TOTAL Coq term for `[d[k]]` -- a declared deviation from
+  Python's KeyError that the driver documents.
 """
 from __future__ import annotations
 
@@ -326,7 +360,11 @@ Fixpoint zip_levels {X : Type} (a b : list (list X)) {struct a} : list (list X) 
   | _, nil => a
   | cons x a', cons y b' => cons (x ++ y) (zip_levels a' b')
   end."""
-HELPER_DEPS = {"nset": ["list_set"], "zget": ["zpos"], "zset": ["zpos", "list_set"], "dict_mem": ["dict_get"]}
+HELPERS["adict_mem"] = """\
+(* k in d *)
+Definition adict_mem {K V : Type} (keqb : K -> K -> bool) (d : list (K * V)) (k : K) : bool :=
+  match adict_get keqb d k with Some _ => true | None => false end."""
+HELPER_DEPS = {"adict_mem": ["adict_get"], "nset": ["list_set"], "zget": ["zpos"], "zset": ["zpos", "list_set"], "dict_mem": ["dict_get"]}
 SET_DEFS2 = """\
 (* set(xs): the elements of xs, each once, in order of first occurrence; a <= b: every element of a is in b *)
 Definition set_of_list (l : list A) : list A := fold_left (fun s x => set_add x s) l nil.
@@ -524,6 +562,13 @@ class _Ctx:
     fall: Optional[str]                   # what reaching the end of the block becomes
     brk: Optional[str] = None             # what `break` becomes
     retp: Optional[Callable[[str], str]] = None   # what an inner loop's `Ret r'` becomes (default: ret)
+    cont: Optional[str] = None            # (seventh extension) what `continue` becomes
+    loop_body: bool = False               # (seventh extension) the context a loop body starts in: `cont` follows `fall`
+
+    def __setattr__(self, k, v):
+        object.__setattr__(self, k, v)
+        if k == "fall" and getattr(self, "loop_body", False):
+            object.__setattr__(self, "cont", v)
 
 
 def _ind(lines: List[str]) -> List[str]:
@@ -697,7 +742,9 @@ class _Fun:
                              and not any(m.name == n.func.attr and m.pure for m in self.unit.done_methods.get(
                                  self.kind(self.spec.types[n.func.value.id])[1], []))
                              and not (self.unit.tables and n.func.attr in self.unit.classes[
-                                 self.kind(self.spec.types[n.func.value.id])[1]].fields)):
+                                 self.kind(self.spec.types[n.func.value.id])[1]].fields)
+                             and not (self.unit.seventh and (self.spec.types[n.func.value.id], n.func.attr)
+                                      in self.unit.noop_methods | self.unit.singleton_methods)):
                     out.add(n.func.value.id)     # s.add(e) on a set / a method call on an object
                 elif self.containers() and isinstance(n, ast.Call) and isinstance(n.func, ast.Attribute) \
                         and isinstance(n.func.value, ast.Name) and n.func.value.id in self.spec.types \
@@ -712,6 +759,12 @@ class _Fun:
                             out.add(a.id)
                 elif _is_self_call(n) and not (self.cls is not None and self.cls.frozen) and not self.pure_self_call(n):
                     out.update(self.fieldvars)
+                if self.unit is not None and self.unit.seventh and isinstance(n, ast.Call) and isinstance(n.func, ast.Attribute) \
+                        and isinstance(n.func.value, ast.Attribute) and isinstance(n.func.value.value, ast.Subscript) \
+                        and isinstance(n.func.value.value.value, ast.Name) \
+                        and is_tuple(self.spec.types.get(n.func.value.value.value.id, "")) \
+                        and arg_of(self.spec.types[n.func.value.value.value.id]) in self.unit.datas:
+                    out.add(n.func.value.value.value.id)       # xs[i].f.m(..): the item of xs is replaced
                 if self.tables():
                     if isinstance(n, (ast.Yield, ast.YieldFrom)):
                         out.add("acc'")
@@ -759,7 +812,7 @@ class _Fun:
     def state(self, node) -> str:
         if self.cls.views:
             parts = [self.view_term("self'" + f) if f in self.cls.views else "self'" + f for f in self.cls.fields]
-            return f"(mk_{self.cls.short} {' '.join(parts)})"
+            return f"({self.unit.q(self.cls.name)}mk_{self.cls.short} {' '.join(parts)})"
         if self.unit is not None and self.cls.name in self.unit.quals:
             return f"({self.unit.q(self.cls.name)}mk_{self.cls.short} {' '.join(self.fieldvars)})"
         return f"(mk_{self.cls.short} {' '.join(self.fieldvars)})"
@@ -793,6 +846,10 @@ class _Fun:
             return True
         if self.fresh_call(e):
             return True
+        if self.unit is not None and self.unit.seventh and isinstance(e, ast.Call) and isinstance(e.func, ast.Name) \
+                and e.func.id in self.unit.externals_res and e.func.id not in self.spec.types \
+                and e.func.id not in self.unit.functions and self.unit.externals_res[e.func.id][3]:
+            return True                            # (seventh extension) declared by the driver: see `Unit.external_res`
         if isinstance(e, ast.BinOp) and isinstance(e.op, ast.Mult) and isinstance(e.left, ast.List) and len(e.left.elts) == 1:
             return True
         if isinstance(e, ast.Call) and isinstance(e.func, ast.Name) and e.func.id == "list" and len(e.args) == 1 \
@@ -860,6 +917,8 @@ class _Fun:
                 return inst_type(self.unit.datas[name].fields[e.attr], sfx, self.unit.parametric())
             if k == "class" and self.unit.classes[name].frozen and not sfx and e.attr in self.unit.classes[name].fields:
                 return self.unit.classes[name].fields[e.attr]
+            if self.opt_field(e, env) is not None:                         # seventh extension
+                return self.opt_field(e, env)[1]
             self.abort(e, "attribute access other than <enum>.<member> or <dataclass value>.<declared field>")
         elif isinstance(e, ast.Set) and self.unit is not None and len(e.elts) == 1 \
                 and not isinstance(e.elts[0], ast.Starred):
@@ -1106,6 +1165,13 @@ class _Fun:
                 return True
             self.unit._unique(self.unit.tree.body, c, ast.ClassDef)
             return False
+        if self.unit.seventh and self.tables() and isinstance(e, ast.Call) and isinstance(e.func, ast.Name) \
+                and e.func.id == "isinstance" and len(e.args) == 2 and not e.keywords and "isinstance" not in self.spec.types \
+                and not self.unit.rebinds("isinstance") and self.is_cursor(e.args[0], env) and isinstance(e.args[1], ast.Name) \
+                and e.args[1].id == "list" and "list" not in self.spec.types and not self.unit.rebinds("list"):
+            # isinstance(c, list), c a reference into the nested table: a cell is None, an entry or a dictionary, never a list
+            # (the declaration that every dimension of the table is a DictDimension)
+            return False
         if isinstance(e, ast.BoolOp) and isinstance(e.op, ast.And):
             vals = [self.static_bool(v, env) for v in e.values]
             if all(v is True for v in vals):
@@ -1142,6 +1208,8 @@ class _Fun:
                 return "new " + f.id
             if self.is_self_rec(e):
                 return self.spec.ret
+            if f.id in self.unit.externals_res and f.id not in self.unit.functions:      # seventh extension
+                return self.unit.externals_res[f.id][1]
             if f.id in self.unit.externals and f.id not in self.unit.functions:
                 return self.unit.externals[f.id][1]
             if f.id in self.unit.datas or f.id in self.unit.classes:
@@ -1184,6 +1252,10 @@ class _Fun:
             return f"({self.expr(e.elts[0], wa, env, hoist)}, {self.expr(e.elts[1], wb, env, hoist)})"
         if self.tables():
             want = self.canon(want)
+            if self.unit.seventh:
+                r = self.expr7(e, want, env, hoist)
+                if r is not None:
+                    return r
             r = self.expr6(e, want, env, hoist)
             if r is not None:
                 return r
@@ -1293,6 +1365,16 @@ class _Fun:
         if isinstance(e, ast.Attribute):
             if self.enum_member(e):
                 return f"{self.unit.q(e.value.id)}{e.value.id}_{e.attr}"
+            if self.unit is not None and self.unit.seventh and self.opt_field(e, env) is not None:
+                # (seventh extension) x.f.g, x.f an optional named tuple: Python evaluates x.f, then looks g up on it --
+                # AttributeError when it is None (None has no attribute g), else the field
+                name, _ = self.opt_field(e, env)
+                self.need("AttributeError")
+                self.nt += 1
+                tmp = f"t'{self.nt}"
+                vt = self.ntype(e.value, env)
+                hoist.append(("unwrap", tmp, self.raw(e.value, vt, env, hoist), "AttributeError"))
+                return f"({self.unit.q(name)}{name}_{e.attr} {tmp})"
             vt = self.ntype(e.value, env)
             k, name, _ = self.kind(vt)
             return f"({self.unit.q(name)}{self.unit.classes[name].short if k == 'class' else name}_{e.attr} {self.raw(e.value, vt, env, hoist)})"
@@ -1341,6 +1423,26 @@ class _Fun:
             self.need("dict_mem")
             term = f"(dict_mem {eqf} {d} ({self.unit.q(tree)}{tree}_id {self.raw(e.left, tree, env, hoist)}))"
             return f"(negb {term})" if isinstance(e.ops[0], ast.NotIn) else term
+        if isinstance(e, ast.Compare) and len(e.ops) == 1 and isinstance(e.ops[0], (ast.In, ast.NotIn)) \
+                and self.unit is not None and self.unit.seventh and self.edict_of(e.comparators[0], env) is not None:
+            # k in d / k not in d, d a dictionary keyed by elements
+            if self.ntype(e.left, env) != "elem":
+                self.abort(e, f"membership test in {e.comparators[0].id} of something that is not an element")
+            self.need("adict_get", "adict_mem")
+            self.uses_eqb = True
+            term = f"(adict_mem eqb {e.comparators[0].id} {self.expr(e.left, 'elem', env, hoist)})"
+            return f"(negb {term})" if isinstance(e.ops[0], ast.NotIn) else term
+        if isinstance(e, ast.Compare) and len(e.ops) == 1 and isinstance(e.ops[0], (ast.In, ast.NotIn)) \
+                and self.unit is not None and self.unit.seventh and isinstance(e.comparators[0], ast.Name) \
+                and e.comparators[0].id in env and self.ntype(e.comparators[0], env) in self.unit.mapping_mem:
+            # (seventh extension) node in d / node not in d, d of a declared mapping type (a function from node identifiers):
+            # the Coq function the driver names (`Unit.mapping_mem`) applied to d and the identifier of the node
+            mt = self.ntype(e.comparators[0], env)
+            tree = self.unit.mappings[mt][0]
+            if self.ntype(e.left, env) != tree:
+                self.abort(e, f"membership test in a {mt} of something that is not a node of a {tree}")
+            term = f"({self.unit.mapping_mem[mt]} {e.comparators[0].id} ({self.unit.q(tree)}{tree}_id {self.raw(e.left, tree, env, hoist)}))"
+            return f"(negb {term})" if isinstance(e.ops[0], ast.NotIn) else term
         if isinstance(e, ast.Compare):
             if len(e.ops) != 1 or type(e.ops[0]) not in CMPOPS:
                 self.abort(e, "only a single comparison == != < <= > >= is handled")
@@ -1351,6 +1453,13 @@ class _Fun:
                 a = f"({lt}_id {self.expr(e.left, lt, env, hoist)})"
                 b = f"({lt}_id {self.expr(e.comparators[0], lt, env, hoist)})"
                 f = self.unit.ntrees[lt][1]
+            elif self.unit is not None and self.unit.seventh and lt == rt and self.kind(lt)[0] == "tree" and fn == "eqb" \
+                    and lt in self.unit.tree_eqb:
+                # (seventh extension) == / != on two nodes of a binary tree: identity of the objects (ete3 nodes define no
+                # __eq__), i.e. equality of the identifiers, decided by the function the driver names (`Unit.tree_eqb`)
+                a = f"({self.unit.q(lt)}{lt}_id {self.expr(e.left, lt, env, hoist)})"
+                b = f"({self.unit.q(lt)}{lt}_id {self.expr(e.comparators[0], lt, env, hoist)})"
+                f = self.unit.tree_eqb[lt]
             elif lt == rt == "elem" and fn == "eqb":
                 a, b, f = self.expr(e.left, "elem", env, hoist), self.expr(e.comparators[0], "elem", env, hoist), "eqb"
                 self.uses_eqb = True
@@ -1569,6 +1678,16 @@ class _Fun:
                 self.in_rec = True
                 self.nt += 1
                 hoist.append(("call", f"t'{self.nt}", " ".join([self.prefix + (self.spec.alias or self.fn.name)] + args)))
+                return f"t'{self.nt}"
+            if f.id in self.unit.externals_res and f.id not in self.unit.functions:
+                # (seventh extension) an imported function that can raise: its arguments are evaluated, then the call is
+                # hoisted like the call of a translated function (it only reads its arguments)
+                argts, _, coq, _ = self.unit.externals_res[f.id]
+                if len(argts) != len(e.args) or e.keywords or any(isinstance(a, ast.Starred) for a in e.args):
+                    self.abort(e, f"{f.id}() called with {len(e.args)} arguments / keyword arguments")
+                args = [self.expr(a, at, env, hoist) for a, at in zip(e.args, argts)]
+                self.nt += 1
+                hoist.append(("call", f"t'{self.nt}", " ".join([coq] + args)))
                 return f"t'{self.nt}"
             if f.id in self.unit.externals and f.id not in self.unit.functions:
                 argts, _, coq = self.unit.externals[f.id]
@@ -1826,6 +1945,8 @@ class _Fun:
         if self.tables():
             self.uses_vars |= self.unit.method_uses_vars.get((cls.name, _mkey(m)), set())
         if not self.unit.outside:
+            if sfx and self.unit.seventh and self.unit.local_sfx.get((cls.name, _mkey(m))) == sfx:
+                sfx = ""                           # a method added in this file for exactly this instance of the class
             if sfx:
                 self.abort(node, "a second instance of the class inside the section of the class")
             self.uses_eqb = self.uses_eqb or dep
@@ -1969,6 +2090,15 @@ class _Fun:
         c = self.unit.cellspec
         self.uses_vars.add(c["keqb"])
         return f"{self.unit.q(c['name'])}{c['name']}_{fn}"
+
+    def cell_call(self, fn: str, args: str) -> str:
+        """The call of a helper of the cell type that returns a result.  A cell type imported from another generated file
+        (seventh extension): the qualified helper with the key equality of that file's Section, converted with its lift."""
+        c = self.unit.cellspec
+        if c["name"] in self.unit.quals and self.unit.seventh:
+            keqb = "" if fn == "entry" else self.unit.imported_var_terms.get(c["keqb"], c["keqb"]) + " "
+            return f"{self.unit.cell_lift} ({self.unit.q(c['name'])}{c['name']}_{fn} {keqb}{args})"
+        return f"{self.cell_fn(fn)} {args}"
 
     def is_cursor(self, n, env) -> bool:
         return self.tables() and isinstance(n, ast.Name) and n.id in env and self.spec.types.get(n.id) == "cursor"
@@ -2163,6 +2293,8 @@ class _Fun:
 
     def ntype6(self, e, env) -> Optional[str]:
         """Natural type of the expression forms of the sixth extension (None: not one of them)."""
+        if self.unit.seventh and self.singleton_call(e, env) is not None:
+            return "tuple " + self.singleton_call(e, env)[1]
         if isinstance(e, ast.Tuple) and isinstance(e.ctx, ast.Load) and len(e.elts) in (0, 1):
             return "newtuple"
         if isinstance(e, ast.BinOp) and isinstance(e.op, ast.Add) and isinstance(e.right, ast.Tuple) \
@@ -2205,6 +2337,8 @@ class _Fun:
                 return f.id
             if f.id == "any" and len(e.args) == 1 and isinstance(e.args[0], ast.GeneratorExp):
                 return "bool"
+            if self.count_idiom(e) is not None:
+                return "N"
             if f.id == "defaultdict" and self.unit.cellspec and len(e.args) == 1 and isinstance(e.args[0], ast.Lambda):
                 return self.celltype()
             if f.id == "len" and len(e.args) == 1 and isinstance(e.args[0], ast.Name) and e.args[0].id in env \
@@ -2293,6 +2427,10 @@ class _Fun:
             return None
 
     def raw6(self, e, t: str, env, hoist) -> Optional[str]:
+        if self.unit.seventh and self.singleton_call(e, env) is not None:
+            # (seventh extension) x.m(), declared by the driver (`Unit.singleton_methods`) to yield the object x itself and
+            # nothing else: the one-item sequence [x]
+            return f"(cons {self.singleton_call(e, env)[0]} nil)"
         if isinstance(e, ast.BinOp) and isinstance(e.op, ast.Add) and is_tuple(t) and isinstance(e.right, ast.Tuple):
             return f"({self.expr(e.left, t, env, hoist)} ++ {self.expr(e.right, t, env, hoist)})"
         if isinstance(e, ast.Subscript) and isinstance(e.ctx, ast.Load):
@@ -2300,9 +2438,9 @@ class _Fun:
                 # c[k], c a reference to a dictionary of the nested table: reading may give the defaultdict the key
                 c, root = e.value.id, self.cursor_root(e, e.value.id)
                 key = self.expr(e.slice, self.unit.cellspec["key_type"], env, hoist)
-                hoist.append(("call", root, f"{self.cell_fn('touch')} {c} {key} {root}"))
+                hoist.append(("call", root, self.cell_call('touch', f"{c} {key} {root}")))
                 self.nt += 1
-                hoist.append(("call", f"t'{self.nt}", f"{self.cell_fn('get')} {c} {key} {root}"))
+                hoist.append(("call", f"t'{self.nt}", self.cell_call('get', f"{c} {key} {root}")))
                 return f"t'{self.nt}"
             if self.chain_parse(e, env) is not None:
                 return self.chain(e, env, hoist)[0]
@@ -2379,6 +2517,16 @@ class _Fun:
                 return f"(mk_{cls.short} {' '.join(args)})"
             if f.id in self.unit.markers and not e.args:
                 return f"{self.unit.q(f.id)}mk_{f.id}"
+            if self.count_idiom(e) is not None:
+                # sum(1 for _ in xs): the number of items xs yields
+                v = self.count_idiom(e)
+                tr = self.traverse_of(v, env)
+                if tr is not None:
+                    self.unit.traversals.add((tr[0], tr[1]))
+                    items = f"({tr[0]}_{tr[1]} {self.expr(tr[2], tr[0], env, hoist)})"
+                else:
+                    items, _ = self.seq_items(e, v, env, hoist)
+                return f"(N.of_nat (length {items}))"
             if f.id == "any" and len(e.args) == 1 and isinstance(e.args[0], ast.GeneratorExp):
                 # any(c for x in xs): some item of the list xs satisfies c (c cannot raise)
                 g = e.args[0].generators[0] if len(e.args[0].generators) == 1 else None
@@ -2439,6 +2587,495 @@ class _Fun:
                     return False
         return True
 
+    # ------------------------------------------------------------ seventh extension (translator/spfs_gen.py)
+    def opt_field(self, e, env):
+        """(named tuple, type of the field) when `e` is `<v>.g` with `<v>` an attribute access of the declared type
+        `option <named tuple>` and g a field of that named tuple (seventh extension); else None."""
+        if not (self.unit is not None and self.unit.seventh and self.tables() and isinstance(e, ast.Attribute)
+                and isinstance(e.ctx, ast.Load) and isinstance(e.value, ast.Attribute)):
+            return None
+        try:
+            vt = self.canon(self.ntype(e.value, env))
+        except TranslatorAbort:
+            return None
+        if not is_option(vt):
+            return None
+        k, name, sfx = self.kind(arg_of(vt))
+        if k != "data" or sfx or e.attr not in self.unit.datas[name].fields:
+            return None
+        return name, self.unit.datas[name].fields[e.attr]
+
+    def definite7(self, stmts) -> set:
+        """The variables every path through `stmts` that reaches their end has assigned with a plain `x = e` (a branch that
+        cannot reach its end -- it ends in return / raise / continue / break -- imposes nothing; loops count for nothing)."""
+        out = set()
+        for b in stmts:
+            if isinstance(b, ast.Assign) and len(b.targets) == 1 and isinstance(b.targets[0], ast.Name):
+                out.add(b.targets[0].id)
+            elif isinstance(b, ast.If):
+                ends = lambda blk: bool(blk) and isinstance(blk[-1], (ast.Return, ast.Raise, ast.Continue, ast.Break))
+                x, y = self.definite7(b.body), self.definite7(b.orelse)
+                out |= y if ends(b.body) and not ends(b.orelse) else x if ends(b.orelse) and not ends(b.body) else x & y
+        return out
+
+    def expr7(self, e, want: str, env, hoist) -> Optional[str]:
+        """Expression forms of the seventh extension inside the body of a local function / lambda whose declared result is
+        a LIST of type `want`: the driver's declaration of that function type states that the receiver only ever iterates
+        the result (`allowed_species` / `allowed_syntenies`: `product(..)` of the two), so that any Python iterable yielding
+        the same items in the same order (a tuple, a range, a generator) is that list.  None: none applies."""
+        if not is_list(want) or not getattr(self, "lam7", False):
+            return None                            # only inside the body of a local function / lambda (`closure`)
+        et = arg_of(want)
+        if isinstance(e, ast.IfExp):
+            # a if c else b: c first, then only the branch taken -- as a Coq `if`, valid because nothing here can raise
+            sub: list = []
+            c = self.expr(e.test, "bool", env, sub)
+            a, b = self.expr(e.body, want, env, sub), self.expr(e.orelse, want, env, sub)
+            if sub:
+                self.abort(e, "conditional expression with a part that can raise")
+            return f"(if {c} then {a} else {b})"
+        if isinstance(e, ast.Tuple) and isinstance(e.ctx, ast.Load) and not any(isinstance(x, ast.Starred) for x in e.elts):
+            # (e1, .., en) where a list is expected: the items, left to right
+            out = f"(@nil ({self.ct(et)}))" if not e.elts else "nil"
+            for item in reversed([self.expr(x, et, env, hoist) for x in e.elts]):
+                out = f"(cons {item} {out})"
+            return out
+        if isinstance(e, ast.Call) and isinstance(e.func, ast.Name) and e.func.id == "range" and "range" not in self.spec.types \
+                and not self.unit.rebinds("range") and len(e.args) == 1 and not e.keywords and et == "N" \
+                and self.ntype(e.args[0], env) in ("N", "lit"):
+            # range(n), n >= 0: the numbers 0 .. n-1 in order
+            return f"(map N.of_nat (seq 0 (N.to_nat {self.expr(e.args[0], 'N', env, hoist)})))"
+        if isinstance(e, ast.List) and len(e.elts) == 1 and isinstance(e.elts[0], ast.Subscript) \
+                and not isinstance(e.elts[0].slice, ast.Slice) and self.unit.lookup_lists:
+            # [d[k]], d a dictionary keyed by nodes, where the driver declares (`Unit.lookup_lists`) a TOTAL Coq function for
+            # this display: a DEVIATION from Python, where d[k] raises KeyError when k is not a key -- the driver documents
+            # what its function answers then, and the proofs have to show that case unreachable
+            try:
+                dt = self.ntype(e.elts[0].value, env)
+            except TranslatorAbort:
+                dt = None
+            if dt is not None and self.kind(dt)[0] == "nodedict" and (dt, want) in self.unit.lookup_lists:
+                tree = self.unit.nodedicts[dt][0]
+                if self.ntype(e.elts[0].slice, env) != tree:
+                    self.abort(e, f"key of a {dt} that is not a node of a {tree}")
+                d = self.expr(e.elts[0].value, dt, env, hoist)
+                k = self.raw(e.elts[0].slice, tree, env, hoist)
+                return "(" + self.unit.lookup_lists[(dt, want)].format(d=d, k=k) + ")"
+        tr = self.traverse_of(e, env)
+        if tr is not None and tr[0] == et:
+            # t.traverse(<strategy>): the nodes of t in that order
+            self.unit.traversals.add((tr[0], tr[1]))
+            return f"({tr[0]}_{tr[1]} {self.expr(tr[2], tr[0], env, hoist)})"
+        return None
+
+    def lambda_args(self, s, env):
+        """`return f(a, .., lambda ..: e, ..)`, f a function of the unit whose parameters in those positions are declared
+        of a function type: (call, [(position, parameter of f)]); else None."""
+        if not (isinstance(s, ast.Return) and isinstance(s.value, ast.Call) and isinstance(s.value.func, ast.Name)
+                and s.value.func.id in self.unit.functions and s.value.func.id not in self.spec.types
+                and not s.value.keywords and any(isinstance(a, ast.Lambda) for a in s.value.args)):
+            return None
+        f = s.value.func.id
+        callee, params = self.unit.functions[f], self.unit.params[f]
+        if len(params) != len(s.value.args):
+            self.abort(s, f"{f}() called with {len(s.value.args)} arguments")
+        out = []
+        for i, (a, q) in enumerate(zip(s.value.args, params)):
+            if isinstance(a, ast.Lambda):
+                if "->" not in callee.types[q]:
+                    self.abort(a, f"lambda passed for {q!r}, which is not declared of a function type")
+                out.append((i, q))
+        return s.value, out
+
+    def singleton_call(self, e, env):
+        """(x, class) when `e` is `x.m()` with x a variable of a class type and (class, m) in `Unit.singleton_methods`."""
+        if not (self.unit is not None and self.unit.seventh and isinstance(e, ast.Call) and isinstance(e.func, ast.Attribute)
+                and isinstance(e.func.value, ast.Name) and not e.args and not e.keywords and e.func.value.id in env
+                and e.func.value.id != "self"):
+            return None
+        t = self.spec.types.get(e.func.value.id, "")
+        if (t, e.func.attr) in self.unit.singleton_methods and self.kind(t)[0] == "class":
+            return e.func.value.id, t
+        return None
+
+    def edict_item(self, e, env):
+        """(d, declared value type) when `e` is `d[k]` with d a LOCAL dictionary keyed by elements; else None."""
+        if isinstance(e, ast.Subscript) and not isinstance(e.slice, ast.Slice) and self.edict_of(e.value, env) is not None:
+            d = e.value.id
+            if d in self.fieldvars or (d in self.params and d not in self.spec.mutates):
+                self.abort(e, f"update of the parameter / attribute {d!r}, which is not declared as updated by this function")
+            return d, self.unit.elemdicts[self.spec.types[d]]
+        return None
+
+    def zip_slices(self, a, env):
+        """`zip(xs[0:-1], xs[1:])` / `zip(xs[:-1], xs[1:])`, xs a list variable: (xs, its type); else None."""
+        if not (isinstance(a, ast.Call) and isinstance(a.func, ast.Name) and a.func.id == "zip" and "zip" not in self.spec.types
+                and not self.unit.rebinds("zip") and len(a.args) == 2 and not a.keywords):
+            return None
+        l, r = a.args
+        lit = lambda n, v: (n is None and v is None) or (isinstance(n, ast.Constant) and type(n.value) is int and n.value == v) \
+            or (v is not None and v < 0 and isinstance(n, ast.UnaryOp) and isinstance(n.op, ast.USub)
+                and isinstance(n.operand, ast.Constant) and type(n.operand.value) is int and n.operand.value == -v)
+        ok = all(isinstance(x, ast.Subscript) and isinstance(x.slice, ast.Slice) and x.slice.step is None
+                 and isinstance(x.value, ast.Name) and x.value.id in env for x in (l, r)) and l.value.id == r.value.id \
+            and (lit(l.slice.lower, 0) or l.slice.lower is None) and lit(l.slice.upper, -1) \
+            and lit(r.slice.lower, 1) and r.slice.upper is None
+        if not ok:
+            return None
+        t = self.ntype(l.value, env)
+        return (l.value.id, t) if is_list(t) else None
+
+    def field_method_stmt(self, s, env):
+        """`xs[i].f.m(args)` as a statement (see `block7`): (xs, named tuple, f, class of the field, instance, method, call)."""
+        if not (isinstance(s, ast.Expr) and isinstance(s.value, ast.Call) and isinstance(s.value.func, ast.Attribute)
+                and isinstance(s.value.func.value, ast.Attribute) and isinstance(s.value.func.value.value, ast.Subscript)
+                and isinstance(s.value.func.value.value.value, ast.Name) and not isinstance(s.value.func.value.value.slice, ast.Slice)):
+            return None
+        x = s.value.func.value.value.value.id
+        xt = self.spec.types.get(x, "")
+        if x not in env or not is_tuple(xt) or arg_of(xt) not in self.unit.datas:
+            return None
+        cname, f, mname = arg_of(xt), s.value.func.value.attr, s.value.func.attr
+        if x in self.params or x in self.fieldvars:
+            self.abort(s, f"update of an object held by the parameter / attribute {x!r}")
+        if f not in self.unit.datas[cname].fields:
+            self.abort(s, f"{cname} has no field {f!r}")
+        k, name, sfx = self.kind(self.unit.datas[cname].fields[f])
+        if k != "class":
+            self.abort(s, f"method call on the field {f!r} of a {cname}, which does not hold an object of a translated class")
+        m = next((q for q in self.unit.done_methods.get(name, []) if q.name == mname), None)
+        if m is None or (m.ret and m.ret != "unit"):
+            self.abort(s, f"{mname!r} is not a translated method of {name} that returns nothing")
+        if self.ntype(s.value.func.value.value.slice, env) not in ("N", "lit"):
+            self.abort(s, "index that is not of type N")
+        if x in _names(s.value.args):
+            self.abort(s, f"argument that mentions {x!r}, an item of which is being updated")
+        return x, cname, f, self.unit.classes[name], sfx, m, s.value
+
+    def item_field_reads(self, s, env):
+        """The distinct `xs[<int literal>].f` of the statement `s`, xs a local tuple of named tuples and f a field that holds an
+        object of a translated class, in the order of their first occurrence: [(xs, i, f, named tuple)]."""
+        out = []
+
+        def walk(n):
+            if isinstance(n, ast.Attribute) and isinstance(n.value, ast.Subscript) and isinstance(n.value.value, ast.Name) \
+                    and isinstance(n.value.slice, ast.Constant) and type(n.value.slice.value) is int and n.value.slice.value >= 0 \
+                    and isinstance(n.ctx, ast.Load):
+                x = n.value.value.id
+                xt = self.spec.types.get(x, "")
+                if x in env and x not in self.params and x not in self.fieldvars and is_tuple(xt) and arg_of(xt) in self.unit.datas \
+                        and n.attr in self.unit.datas[arg_of(xt)].fields \
+                        and self.kind(self.unit.datas[arg_of(xt)].fields[n.attr])[0] == "class":
+                    key = (x, n.value.slice.value, n.attr, arg_of(xt))
+                    if key not in out:
+                        out.append(key)
+                    return
+            for c in ast.iter_child_nodes(n):
+                walk(c)
+        walk(s)
+        return out
+
+    def count_idiom(self, e):
+        """The iterated expression when `e` is `sum(1 for _ in <expression>)` (seventh extension); else None."""
+        if not (self.unit is not None and self.unit.seventh and isinstance(e, ast.Call) and isinstance(e.func, ast.Name)
+                and e.func.id == "sum" and "sum" not in self.spec.types and not self.unit.rebinds("sum") and len(e.args) == 1
+                and not e.keywords and isinstance(e.args[0], ast.GeneratorExp)):
+            return None
+        g = e.args[0]
+        if len(g.generators) == 1 and not g.generators[0].ifs and not g.generators[0].is_async \
+                and isinstance(g.generators[0].target, ast.Name) and g.generators[0].target.id == "_" \
+                and isinstance(g.elt, ast.Constant) and type(g.elt.value) is int and g.elt.value == 1:
+            return g.generators[0].iter
+        return None
+
+    def strip_tqdm(self, s, env):
+        """`for .. in tqdm(xs, desc=.., total=.., ascii=.., leave=..)`: tqdm yields the items of xs in order (a progress bar:
+        its output is not modelled); the keyword values are literals, variables, or expressions the translator proves
+        unable to raise (they are evaluated and dropped).  Rewrites `s.iter` to `xs`."""
+        it = s.iter
+        if not (isinstance(it, ast.Call) and isinstance(it.func, ast.Name) and it.func.id == "tqdm" and "tqdm" not in self.spec.types
+                and self.unit.tqdm_ok and len(it.args) == 1 and not isinstance(it.args[0], ast.Starred)):
+            return
+        for kw in it.keywords:
+            if kw.arg not in ("desc", "total", "ascii", "leave"):
+                self.abort(s, f"tqdm(.., {kw.arg}=..) outside the handled subset")
+            if isinstance(kw.value, ast.Constant):
+                continue
+            sub: list = []
+            self.expr(kw.value, "N", env, sub)
+            if sub:
+                self.abort(s, f"tqdm(.., {kw.arg}=<expression that can raise>)")
+        s.iter = it.args[0]
+
+    def make_idiom(self, s, env):
+        if not (isinstance(s, ast.Assign) and len(s.targets) == 1 and isinstance(s.targets[0], ast.Name)
+                and is_tuple(self.spec.types.get(s.targets[0].id, "")) and isinstance(s.value, ast.Call)
+                and isinstance(s.value.func, ast.Name) and s.value.func.id == "tuple" and "tuple" not in self.spec.types
+                and len(s.value.args) == 1 and not s.value.keywords and isinstance(s.value.args[0], ast.GeneratorExp)):
+            return None
+        x, cname = s.targets[0].id, arg_of(self.spec.types[s.targets[0].id])
+        if cname not in self.unit.datas or self.unit.rebinds("tuple") or x in self.params or x in self.fieldvars:
+            return None
+
+        def over_range(g, count_ok):
+            return len(g.generators) == 1 and not g.generators[0].ifs and not g.generators[0].is_async \
+                and isinstance(g.generators[0].target, ast.Name) and g.generators[0].target.id == "_" \
+                and isinstance(g.generators[0].iter, ast.Call) and isinstance(g.generators[0].iter.func, ast.Name) \
+                and g.generators[0].iter.func.id == "range" and "range" not in self.spec.types \
+                and len(g.generators[0].iter.args) == 1 and not g.generators[0].iter.keywords and count_ok(g.generators[0].iter.args[0])
+        outer = s.value.args[0]
+        if not over_range(outer, lambda c: isinstance(c, ast.Constant) and type(c.value) is int and 0 <= c.value < 100):
+            return None
+        k = outer.generators[0].iter.args[0].value
+        mk = outer.elt
+        fields_len = lambda c: isinstance(c, ast.Call) and isinstance(c.func, ast.Name) and c.func.id == "len" \
+            and "len" not in self.spec.types and len(c.args) == 1 and isinstance(c.args[0], ast.Attribute) \
+            and c.args[0].attr == "_fields" and isinstance(c.args[0].value, ast.Name) and c.args[0].value.id == cname
+        if not (isinstance(mk, ast.Call) and isinstance(mk.func, ast.Attribute) and mk.func.attr == "_make"
+                and isinstance(mk.func.value, ast.Name) and mk.func.value.id == cname and cname not in self.spec.types
+                and len(mk.args) == 1 and not mk.keywords and isinstance(mk.args[0], ast.GeneratorExp)
+                and over_range(mk.args[0], fields_len)):
+            return None
+        call = mk.args[0].elt
+        oc = self.obj_call(call, env) if isinstance(call, ast.Call) and not call.args and not call.keywords else None
+        ftypes = set(self.unit.datas[cname].fields.values())
+        if oc is None or not (oc[3].pure and oc[3].fresh) or len(ftypes) != 1 or oc[0] not in env:
+            self.abort(s, f"{cname}._make(..) of something other than <object>.<pure method returning a new object>() for "
+                          "fields of one type")
+        return x, cname, call, k
+
+    def block7(self, s, rest, env, ctx, h) -> Optional[List[str]]:
+        """Statements of the seventh extension; None when `s` is none of them."""
+        if isinstance(s, ast.Return) and isinstance(s.value, ast.Lambda) and "->" in (self.spec.ret or "") and self.tables():
+            # return lambda a, b: e  ==  def lam'(a, b): return e; return lam'
+            name = "lambda_"
+            if name in self.spec.types:
+                self.abort(s, "two returned lambdas in one function")
+            self.spec.types[name] = self.spec.ret
+            fd = ast.copy_location(ast.FunctionDef(name=name, args=s.value.args, decorator_list=[], returns=None,
+                                                   body=[ast.copy_location(ast.Return(value=s.value.body), s)]), s)
+            self.fn.body.append(fd)                # (the checks of `closure` walk the enclosing function)
+            ret = ast.copy_location(ast.Return(value=ast.copy_location(ast.Name(id=name, ctx=ast.Load()), s)), s)
+            return self.closure(fd, [ret] + rest, env, ctx)
+        la = self.lambda_args(s, env) if self.tables() else None
+        if la is not None:
+            # return f(.., lambda a, b: e, ..)  ==  def lambda_i(a, b): return e  (one per lambda, in argument order: a lambda
+            # expression only builds a function, so defining them first changes nothing); return f(.., lambda_i, ..)
+            call, lams = la
+            callee = self.unit.functions[call.func.id]
+            defs, args = [], list(call.args)
+            for n_, (i, q) in enumerate(lams):
+                name = f"lambda_{n_ + 1}"
+                if name in self.spec.types or name in env:
+                    self.abort(s, f"the name {name!r} is in use")
+                self.spec.types[name] = callee.types[q]
+                lam = call.args[i]
+                fd = ast.copy_location(ast.FunctionDef(name=name, args=lam.args, decorator_list=[], returns=None,
+                                                       body=[ast.copy_location(ast.Return(value=lam.body), lam)]), lam)
+                self.fn.body.append(fd)            # (the checks of `closure` walk the enclosing function)
+                defs.append(fd)
+                args[i] = ast.copy_location(ast.Name(id=name, ctx=ast.Load()), lam)
+            ret = ast.copy_location(ast.Return(value=ast.copy_location(
+                ast.Call(func=call.func, args=args, keywords=[]), call)), s)
+            return self.block(defs + [ret] + rest, env, ctx)
+        if isinstance(s, ast.Assign) and len(s.targets) == 1 and isinstance(s.targets[0], ast.Name) \
+                and "->" in self.spec.types.get(s.targets[0].id, "") and isinstance(s.value, ast.Call) \
+                and isinstance(s.value.func, ast.Name) and s.value.func.id in self.unit.functions \
+                and s.value.func.id not in self.spec.types \
+                and self.unit.functions[s.value.func.id].ret == self.spec.types[s.targets[0].id]:
+            # x = f(args), f a function of the unit returning a function: x is that (immutable) function; assigned once
+            x = s.targets[0].id
+            stores = [n for n in ast.walk(self.fn) if isinstance(n, ast.Name) and n.id == x and not isinstance(n.ctx, ast.Load)]
+            if len(stores) != 1 or x in self.params or x in env:
+                self.abort(s, f"{x!r}, declared of a function type, is assigned more than once")
+            term = self.expr(s.value, self.spec.types[x], env, h)
+            return self.hoisted(h, [f"let {x} := {term} in"] + self.block(rest, env + [x], ctx), ctx)
+        made = self.make_idiom(s, env)
+        if made is not None:
+            # xs = tuple(C._make(x.m() for _ in range(len(C._fields))) for _ in range(k)): k named tuples whose fields are
+            # all the result of x.m() -- m a method that only reads x, takes no argument and returns a new object: every
+            # evaluation gives the same value (or the same error), so that it is evaluated once here
+            x, cname, call, k = made
+            nf = len(self.unit.datas[cname].fields)
+            term = self.expr(call, list(self.unit.datas[cname].fields.values())[0], env, h)
+            rec = "(" + " ".join([f"mk_{cname}"] + [term] * nf) + ")"
+            env2 = [v for v in env if v != x + "!"]
+            return self.hoisted(h, [f"let {x} := (repeat {rec} {k}) in"] + self.block(rest, env2 + [x] * (x not in env2), ctx), ctx)
+        if isinstance(s, ast.Assign) and len(s.targets) == 1 and isinstance(s.targets[0], ast.Name) \
+                and isinstance(s.value, ast.Subscript) and not isinstance(s.value.slice, ast.Slice) \
+                and isinstance(s.value.value, ast.Attribute) and s.value.value.attr == "children" \
+                and isinstance(s.value.value.value, ast.Name) and s.value.value.value.id in env \
+                and self.kind(self.spec.types.get(s.value.value.value.id, ""))[0] == "tree":
+            # x = t.children[i], t a node of a binary tree (no or exactly two children), i a non-negative int: IndexError on a
+            # leaf and for i >= 2
+            t, x = s.value.value.value.id, s.targets[0].id
+            tt = self.ty(s, t)
+            if self.ty(s, x) != tt or x in self.params or x in self.fieldvars or x == t or self.spec.rec_on:
+                self.abort(s, f"{x!r} must be a local declared {tt} (in a function that is not structurally recursive)")
+            if self.ntype(s.value.slice, env) not in ("N", "lit"):
+                self.abort(s, "index of .children that is not of type N")
+            i = self.expr(s.value.slice, "N", env, h)
+            qt = self.unit.q(tt) + tt
+            sel = f"match {t} with {qt}_leaf _ => None | {qt}_node _ a' b' => " \
+                  f"if N.eqb {i} 0%N then Some a' else if N.eqb {i} 1%N then Some b' else None end"
+            env2 = [v for v in env if v != x + "!"]
+            return self.hoisted(h, [f"match {sel} with", f"| None => {ctx.fail('IndexError')}", f"| Some {x} =>"]
+                                + _ind(self.block(rest, env2 + [x] * (x not in env2), ctx)) + ["end"], ctx)
+        if isinstance(s, ast.Expr) and isinstance(s.value, ast.YieldFrom) and self.spec.generator and self.tables() \
+                and isinstance(s.value.value, ast.Call) and isinstance(s.value.value.func, ast.Attribute) \
+                and s.value.value.func.attr == "keys" and not s.value.value.args and not s.value.value.keywords \
+                and self.is_cursor(s.value.value.func.value, env):
+            # yield from c.keys(), c a reference into the nested table: the keys of the dictionary it designates, in insertion
+            # order (AttributeError: the cell is None or an entry, which have no keys())
+            c = s.value.value.func.value.id
+            root = self.cursor_root(s, c)
+            spec = self.unit.cellspec
+            if self.spec.ret != "list " + spec["key"]:
+                self.abort(s, f"keys of the nested table yielded by a generator that is not declared list {spec['key']}")
+            self.need("AttributeError")
+            q, n = self.unit.q(spec["name"]), spec["name"]
+            at = self.cell_call('at', f"{c} {root}")
+            return [f"match {at} with", f"| Err e' => {ctx.fail(chr(101) + chr(39))}", f"| Ok ({q}{n}_dict _ items') =>"] \
+                + _ind([f"let acc' := (acc' ++ map fst items') in"] + self.block(rest, env, ctx)) \
+                + [f"| Ok _ => {ctx.fail('AttributeError')}", "end"]
+        fm = self.field_method_stmt(s, env)
+        reads = [] if fm is not None or not isinstance(s, (ast.Expr, ast.Assign)) else self.item_field_reads(s, env)
+        if reads:
+            # xs[<literal>].f (xs a tuple of named tuples, f a field holding an object) inside a statement: the objects are
+            # read first, in the order of their first occurrence (IndexError), and named; they are only read afterwards
+            # (receivers of methods that only read their object, arguments the callee only reads).  Reading has no effect, so
+            # that doing it early can only change WHICH error is reported when a later step of the statement fails too
+            lines_open, names = [], {}
+            for (x, i, f, cname) in reads:
+                nm = f"{x}_{i}_{f}"
+                if nm in self.spec.types or nm in env:
+                    self.abort(s, f"the name {nm!r} is in use")
+                self.spec.types[nm] = self.unit.datas[cname].fields[f]
+                self.borrowed7 = getattr(self, "borrowed7", set()) | {nm}
+                names[(x, i, f)] = nm
+                self.nt += 1
+                lines_open += [f"match nth_error {x} {i} with", f"| None => {ctx.fail('IndexError')}", f"| Some t'{self.nt} =>",
+                               f"let {nm} := ({cname}_{f} t'{self.nt}) in"]
+
+            class _R(ast.NodeTransformer):
+                def visit_Attribute(self_, node):
+                    v = node.value
+                    if isinstance(v, ast.Subscript) and isinstance(v.value, ast.Name) and isinstance(v.slice, ast.Constant) \
+                            and (v.value.id, v.slice.value, node.attr) in names:
+                        return ast.copy_location(ast.Name(id=names[(v.value.id, v.slice.value, node.attr)], ctx=ast.Load()), node)
+                    return self_.generic_visit(node)
+            s2 = _R().visit(copy.deepcopy(s))
+            return lines_open + self.block([s2] + rest, env + list(names.values()), ctx) + ["end"] * len(reads)
+        if fm is not None:
+            # xs[i].f.m(args), xs a tuple of named tuples whose field f holds an object: the item is read (IndexError), the
+            # method called on the object of its field f, the updated object put back into the item and the item into xs
+            x, cname, f, cls, sfx, m, call = fm
+            self.need("nset")
+            idx = self.expr(s.value.func.value.value.slice, "N", env, h)
+            self.nt += 3
+            item, obj = f"t'{self.nt - 2}", f"t'{self.nt - 1}"
+            ha: list = []
+            args = self.method_args(call, cls, m, sfx, env, ha)
+            fields = list(self.unit.datas[cname].fields)
+            rebuilt = "(" + " ".join([f"mk_{cname}"] + [obj if g == f else f"({cname}_{g} {item})" for g in fields]) + ")"
+            inner = [f"match {self.mcall(s, cls, m, sfx, f'({cname}_{f} {item})', args)} with", "| Err e' => " + ctx.fail("e'"),
+                     f"| Ok ({obj}, _) =>",
+                     f"  match nset {x} {idx} {rebuilt} with", f"  | None => {ctx.fail('IndexError')}", f"  | Some {x} =>"] \
+                + _ind(_ind(self.block(rest, env, ctx))) + ["  end", "end"]
+            return self.hoisted(h, [f"match nth_error {x} (N.to_nat {idx}) with", f"| None => {ctx.fail('IndexError')}",
+                                    f"| Some {item} =>"] + _ind(self.hoisted(ha, inner, ctx)) + ["end"], ctx)
+        if isinstance(s, ast.If) and not s.orelse and isinstance(s.test, ast.BoolOp) and isinstance(s.test.op, ast.And) \
+                and len(s.test.values) == 2 and any(isinstance(n, ast.Subscript) for n in ast.walk(s.test.values[1])):
+            # if a and b: BODY (no else), b reading a list / the table (it can raise):  if a: (if b: BODY)  -- b is evaluated
+            # only when a is true, BODY runs when both are, and what follows the `if` runs in every case that does not
+            # leave BODY by return (a false, b false, or BODY falling through), exactly as for the `and`
+            inner = ast.copy_location(ast.If(test=s.test.values[1], body=s.body, orelse=[]), s)
+            outer = ast.copy_location(ast.If(test=s.test.values[0], body=[inner], orelse=[]), s)
+            return self.block([outer] + rest, env, ctx)
+        if isinstance(s, ast.Expr) and isinstance(s.value, ast.Call) and isinstance(s.value.func, ast.Attribute) \
+                and isinstance(s.value.func.value, ast.Name) and s.value.func.value.id in env and s.value.func.value.id != "self" \
+                and (self.spec.types.get(s.value.func.value.id, ""), s.value.func.attr) in self.unit.noop_methods \
+                and not s.value.args and not s.value.keywords:
+            # x.m() as a statement, declared by the driver (`Unit.noop_methods`) to have no effect on anything the translation
+            # models and to be unable to raise: nothing
+            return self.block(rest, env, ctx)
+        if self.unit.stderr_print and isinstance(s, ast.Expr) and isinstance(s.value, ast.Call) \
+                and isinstance(s.value.func, ast.Name) and s.value.func.id == "print" and "print" not in self.spec.types:
+            # print(f"..", file=sys.stderr): writes a diagnostic; no effect on anything the translation models.  The message
+            # must be unable to raise: an f-string over names and ', '.join(<variable of a sequence type>) (the driver's
+            # assumption: the items are strings, so that join cannot raise TypeError)
+            c = s.value
+            kw = c.keywords
+            ok = len(c.args) == 1 and isinstance(c.args[0], ast.JoinedStr) and len(kw) == 1 and kw[0].arg == "file" \
+                and isinstance(kw[0].value, ast.Attribute) and kw[0].value.attr == "stderr" \
+                and isinstance(kw[0].value.value, ast.Name) and kw[0].value.value.id == "sys" and "sys" not in self.spec.types \
+                and not self.unit.rebinds("print")
+            if ok:
+                self.unit.plain_import("sys")
+                for v in c.args[0].values:
+                    if isinstance(v, ast.Constant):
+                        continue
+                    w = v.value if isinstance(v, ast.FormattedValue) and v.format_spec is None and v.conversion == -1 else None
+                    name_ok = isinstance(w, ast.Name) and w.id in env
+                    join_ok = isinstance(w, ast.Call) and isinstance(w.func, ast.Attribute) and w.func.attr == "join" \
+                        and isinstance(w.func.value, ast.Constant) and isinstance(w.func.value.value, str) \
+                        and len(w.args) == 1 and not w.keywords and isinstance(w.args[0], ast.Name) and w.args[0].id in env \
+                        and self.seq(self.spec.types.get(w.args[0].id, ""))
+                    ok = ok and (name_ok or join_ok)
+            if not ok:
+                self.abort(s, "print(..) other than print(<f-string over names and ', '.join(<sequence variable>)>, file=sys.stderr)")
+            return self.block(rest, env, ctx)
+        if isinstance(s, ast.Continue):
+            # continue: what reaching the end of the loop body becomes
+            if ctx.cont is None:
+                self.abort(s, "continue outside a loop (or in a loop whose body is not translated with a continuation)")
+            if rest:
+                self.abort(rest[0], "statement after continue")
+            return [ctx.cont]
+        if isinstance(s, (ast.Assign, ast.AnnAssign)) and s.value is not None and isinstance(s.value, ast.Dict) and not s.value.keys:
+            target = s.target if isinstance(s, ast.AnnAssign) else (s.targets[0] if len(s.targets) == 1 else None)
+            if isinstance(target, ast.Name) and self.kind(self.spec.types.get(target.id, ""))[0] == "elemdict":
+                # d = {} (the annotation, if any, is not looked at): a new dictionary keyed by elements, no item
+                x = target.id
+                if x in self.params or x in self.fieldvars:
+                    self.abort(s, f"assignment to the dictionary parameter / attribute {x!r}")
+                vt = self.ct(self.unit.elemdicts[self.spec.types[x]])
+                env2 = [v for v in env if v != x + "!"]
+                return [f"let {x} := (@nil ({self.ct('elem')} * {vt if ' ' not in vt else '(' + vt + ')'})) in"] \
+                    + self.block(rest, env2 + [x] * (x not in env2), ctx)
+        if isinstance(s, ast.Assign) and len(s.targets) == 1 and self.edict_item(s.targets[0], env) is not None:
+            # d[k] = set(): the value is stored where k stands, a new key goes to the end (insertion order)
+            d, vt = self.edict_item(s.targets[0], env)
+            v = s.value
+            if not (self.kind(vt)[0] == "set" and isinstance(v, ast.Call) and isinstance(v.func, ast.Name) and v.func.id == "set"
+                    and not v.args and not v.keywords and "set" not in self.spec.types and not self.unit.rebinds("set")):
+                self.abort(s, "store into a dictionary keyed by elements other than d[k] = set() / d[k] op= e")
+            if d in _names([s.targets[0].slice]):
+                self.abort(s, "key that mentions the dictionary it is stored into")
+            key = self.expr(s.targets[0].slice, "elem", env, h)
+            self.need("adict_set")
+            self.uses_eqb = True
+            return self.hoisted(h, [f"let {d} := (adict_set eqb {d} {key} nil) in"] + self.block(rest, env, ctx), ctx)
+        if isinstance(s, ast.Expr) and isinstance(s.value, ast.Call) and isinstance(s.value.func, ast.Attribute) \
+                and s.value.func.attr == "add" and len(s.value.args) == 1 and not s.value.keywords \
+                and self.edict_item(s.value.func.value, env) is not None:
+            # d[k].add(e): the set at k is read (KeyError when k is not a key), e added (appended unless present), the set
+            # stored back where it stands
+            d, vt = self.edict_item(s.value.func.value, env)
+            if self.kind(vt)[0] != "set" or self.kind(vt)[2]:
+                self.abort(s, f"add on an item of {d}, whose values are not declared set")
+            if d in _names([s.value.func.value.slice, s.value.args[0]]):
+                self.abort(s, "key / element that mentions the dictionary")
+            key = self.expr(s.value.func.value.slice, "elem", env, h)
+            self.need("adict_get", "adict_set", "KeyError", "set_add")
+            self.uses_eqb = True
+            self.nt += 1
+            old = f"t'{self.nt}"
+            h.append(("unwrap", old, f"adict_get eqb {d} {key}", "KeyError"))
+            val = self.expr(s.value.args[0], "elem", env, h)
+            return self.hoisted(h, [f"let {d} := (adict_set eqb {d} {key} (set_add {val} {old})) in"] + self.block(rest, env, ctx), ctx)
+        return None
+
     def block6(self, s, rest, env, ctx, h) -> Optional[List[str]]:
         """The statement forms of the sixth extension (None: `s` is not one of them)."""
         ct = self.celltype()
@@ -2476,13 +3113,13 @@ class _Fun:
             c, root = s.value.id, self.cursor_root(s, s.value.id)
             self.nt += 1
             t1 = f"t'{self.nt}"
-            h.append(("call", t1, f"{self.cell_fn('at')} {c} {root}"))
+            h.append(("call", t1, self.cell_call('at', f"{c} {root}")))
             if self.spec.ret == ct:
                 return self.hoisted(h, [ctx.ret(t1)], ctx)
             if self.spec.ret != "option " + self.unit.cellspec["entry"]:
                 self.abort(s, f"a reference is returned where a value of type {self.spec.ret} is expected")
             self.nt += 1
-            h.append(("call", f"t'{self.nt}", f"{self.cell_fn('entry')} {t1}"))
+            h.append(("call", f"t'{self.nt}", self.cell_call('entry', f"{t1}")))
             return self.hoisted(h, [ctx.ret(f"t'{self.nt}")], ctx)
         # if x is None: <ends in return / raise>  -- x holding an optional value: a match; x is the value afterwards
         if isinstance(s, ast.If) and isinstance(s.test, ast.Compare) and len(s.test.ops) == 1 \
@@ -2511,12 +3148,12 @@ class _Fun:
                     # c = <root>: a reference to the root itself
                     if v.id != root or root not in env:
                         self.abort(s, f"the reference {x!r} is bound to something that is not a variable holding a root")
-                    return [f"let {x} := (@nil ({self.unit.cellspec['key']})) in"] + self.block(rest, env + [x] * (x not in env), ctx)
+                    return [f"let {x} := (@nil ({self.ct(self.unit.cellspec['key']) if self.unit.seventh else self.unit.cellspec['key']})) in"] + self.block(rest, env + [x] * (x not in env), ctx)
                 # c = c[k]: the reference follows the key k (reading c[k] may give the defaultdict the key)
                 if x not in env:
                     self.abort(s, f"the reference {x!r} is not definitely assigned here")
                 key = self.expr(v.slice, self.unit.cellspec["key_type"], env, h)
-                h.append(("call", root, f"{self.cell_fn('touch')} {x} {key} {root}"))
+                h.append(("call", root, self.cell_call('touch', f"{x} {key} {root}")))
                 return self.hoisted(h, [f"let {x} := ({x} ++ cons {key} nil) in"] + self.block(rest, env, ctx), ctx)
             # x = <method call returning a newly built object> / x = <call returning a reference that x only reads through>
             xt = self.spec.types.get(x, "")
@@ -2542,7 +3179,7 @@ class _Fun:
                 c, root = tg.value.id, self.cursor_root(s, tg.value.id)
                 val = self.expr(s.value, ct, env, h)
                 key = self.expr(tg.slice, self.unit.cellspec["key_type"], env, h)
-                h.append(("call", root, f"{self.cell_fn('store')} {c} {key} {val} {root}"))
+                h.append(("call", root, self.cell_call('store', f"{c} {key} {val} {root}")))
                 return self.hoisted(h, self.block(rest, env, ctx), ctx)
             recv_t = self.chain_recv_type(tg.value, env)
             if recv_t is not None:
@@ -2572,16 +3209,16 @@ class _Fun:
                 if m is None:
                     self.abort(s, f"{c.func.attr!r} is not a translated method of {ent}")
                 key = self.expr(tg.slice, self.unit.cellspec["key_type"], env, h)
-                h.append(("call", root, f"{self.cell_fn('touch')} {cur} {key} {root}"))
+                h.append(("call", root, self.cell_call('touch', f"{cur} {key} {root}")))
                 self.nt += 3
                 t1, t2 = f"t'{self.nt - 2}", f"t'{self.nt - 1}"
-                h.append(("call", t1, f"{self.cell_fn('get')} {cur} {key} {root}"))
+                h.append(("call", t1, self.cell_call('get', f"{cur} {key} {root}")))
                 h2: list = []
                 args = self.method_args(c, cls, m, "", env, h2)
                 call = self.mcall(s, cls, m, "", t2, args)
                 self.need("AttributeError")
                 inner = [f"match {call} with", "| Err e' => " + ctx.fail("e'"), f"| Ok ({t2}, _) =>",
-                         f"  match {self.cell_fn('store')} {cur} {key} ({self.unit.q(ct)}{ct}_Entry {t2}) {root} with",
+                         "  match " + self.cell_call('store', f"{cur} {key} ({self.unit.q(ct)}{ct}_Entry {t2}) {root}") + " with",
                          "  | Err e' => " + ctx.fail("e'"), f"  | Ok {root} =>"] + _ind(_ind(self.block(rest, env, ctx))) + ["  end", "end"]
                 return self.hoisted(h, [f"match {t1} with", f"| {self.unit.q(ct)}{ct}_Entry {t2} =>"]
                                     + _ind(self.hoisted(h2, inner, ctx)) + [f"| _ => {ctx.fail('AttributeError')}", "end"], ctx)
@@ -2700,11 +3337,19 @@ class _Fun:
                 t = self.spec.types.get(n.id)
                 if t is None:
                     continue                       # a name of the unit (a class, an enum, a constant)
+                frozen7 = self.unit.seventh and self.kind(t)[0] == "class" and self.unit.classes[self.kind(t)[1]].frozen \
+                    and not self.kind(t)[2]      # (seventh extension) an object of a frozen dataclass is an immutable value
                 if n.id not in env or len(stores) + (n.id in self.params) != 1 or self.seq(t) and is_list(t) \
-                        or self.kind(t)[0] in ("class", "set", "nodedict", "elemdict", "deque", "cursor", "union", "cell"):
+                        or (self.kind(t)[0] in ("class", "set", "nodedict", "elemdict", "deque", "cursor", "union", "cell")
+                            and not frozen7):
                     self.abort(n, f"the local function {f} captures {n.id!r}, which is not an immutable value assigned once before")
         sub: list = []
-        term = self.expr(body[0].value, parts[-1], env + ps, sub)
+        saved7 = getattr(self, "lam7", False)
+        self.lam7 = True                          # (seventh extension) see `expr7`
+        try:
+            term = self.expr(body[0].value, parts[-1], env + ps, sub)
+        finally:
+            self.lam7 = saved7
         if sub:
             self.abort(s, f"the body of the local function {f} can raise")
         return [f"let {f} := fun {' '.join(self.binder(s, q) for q in ps)} => {term} in"] + self.block(rest, env + [f], ctx)
@@ -3003,6 +3648,10 @@ class _Fun:
         self.mark_calls(s)
         if isinstance(s, (ast.Return, ast.Break)) and rest:
             self.abort(rest[0], "statement after return/break")
+        if self.unit is not None and self.unit.seventh:
+            r = self.block7(s, rest, env, ctx, h)
+            if r is not None:
+                return r
         if self.tables():
             r = self.block6(s, rest, env, ctx, h)
             if r is not None:
@@ -3319,10 +3968,18 @@ class _Fun:
                 mod = [v for v in env if v in upd]
                 if any(v + "!" in env for v in mod):
                     self.abort(s, "a variable narrowed by an assert is assigned in a branch")
+                new7 = []
+                if self.unit is not None and self.unit.seventh and s.orelse:
+                    # (seventh extension) a variable that is not defined before the `if` and that BOTH branches assign on every
+                    # path reaching their end (`definite7`) is defined afterwards: the continuation takes it as well
+                    new7 = [v for v in sorted(self.definite7(s.body) & self.definite7(s.orelse))
+                            if v not in env and v + "!" not in env and v in self.spec.types and v not in self.params
+                            and v not in self.fieldvars]
+                    mod = mod + new7
                 self.nk += 1
                 k = f"k'{self.nk}"
                 lines = [f"let {k} := fun {' '.join(self.binder(s, v) for v in mod) or '(_ : unit)'} =>"] \
-                    + _ind(self.block(rest, env, ctx)) + ["in"]
+                    + _ind(self.block(rest, env + new7, ctx)) + ["in"]
                 inner = replace(ctx, fall=f"{k} {' '.join(mod) or 'tt'}")
                 self.mark_calls(s)
             if nar is not None:
@@ -3361,10 +4018,29 @@ class _Fun:
         n = self.nloop
         targets: List[str] = []
         pattern = None
+        if isinstance(s, ast.For) and self.unit is not None and self.unit.seventh:
+            self.strip_tqdm(s, env)
+        if isinstance(s, ast.For) and self.unit is not None and self.unit.seventh and self.tables() \
+                and isinstance(s.target, ast.Name) and isinstance(s.iter, ast.Subscript) and self.chain_parse(s.iter, env) is not None:
+            # for x in <chain of subscripts>: iter() of the object the chain gives, i.e. its __iter__()
+            ct_ = self.chain_type(s.iter, env)
+            kk, nm, _ = self.kind(ct_)
+            if kk in ("class", "union") and any(x.name == "__iter__" for x in self.unit.done_methods.get(nm, [])):
+                s.iter = ast.copy_location(ast.Call(func=ast.copy_location(
+                    ast.Attribute(value=s.iter, attr="__iter__", ctx=ast.Load()), s.iter), args=[], keywords=[]), s.iter)
+                # the items are taken when the loop is entered.  The object iterated is a live view of a dictionary of the
+                # table, which the body may read through the same variable: valid as long as the body adds no key to that
+                # dictionary (Python would raise RuntimeError: dictionary changed size during iteration) -- an assumption
+                # of the driver that sets `snapshot_iteration`
+                if not self.unit.snapshot_iteration:
+                    self.abort(s, "iteration over a view of the table (the unit does not declare snapshot_iteration)")
+                s.iter.snapshot7 = True
         if isinstance(s, ast.For) and self.unit is not None and isinstance(s.target, ast.Name) \
                 and isinstance(s.iter, ast.Attribute) and s.iter.attr == "children" and isinstance(s.iter.value, ast.Name) \
                 and s.iter.value.id in env and self.kind(self.spec.types.get(s.iter.value.id, ""))[0] == "ntree":
             it, kind, targets = s.iter, "children", [s.target.id]
+        elif isinstance(s, ast.For) and isinstance(s.target, ast.Name) and self.singleton_call(s.iter, env) is not None:
+            it, kind, targets = s.iter, "each", [s.target.id]          # (seventh extension) for y in x.m(): the one item x
         elif isinstance(s, ast.For) and self.unit is not None and isinstance(s.target, ast.Name) \
                 and (isinstance(s.iter, ast.Name) or isinstance(s.iter, ast.Call) and self.obj_call(s.iter, env) is not None
                      or self.tail_slice(s.iter, env) is not None or self.container_iter(s.iter, env) is not None
@@ -3374,6 +4050,12 @@ class _Fun:
                 and all(isinstance(x, ast.Name) for x in s.target.elts) and isinstance(s.iter, ast.Name) and s.iter.id in env \
                 and is_list(self.ntype(s.iter, env)) and is_pair(arg_of(self.ntype(s.iter, env))):
             # for a, b in xs, xs a list of 2-tuples
+            it, kind, targets = s.iter, "each", [x.id for x in s.target.elts]
+            pattern = list(targets)
+        elif isinstance(s, ast.For) and self.unit is not None and self.unit.seventh and isinstance(s.target, ast.Tuple) \
+                and len(s.target.elts) == 2 and all(isinstance(x, ast.Name) for x in s.target.elts) \
+                and self.zip_slices(s.iter, env) is not None:
+            # for a, b in zip(xs[0:-1], xs[1:]): the pairs of neighbours of xs, left to right
             it, kind, targets = s.iter, "each", [x.id for x in s.target.elts]
             pattern = list(targets)
         elif isinstance(s, ast.For) and isinstance(s.target, ast.Name) and self.traverse_of(s.iter, env) is not None \
@@ -3440,7 +4122,7 @@ class _Fun:
         tup = "tt" if not state else state[0] if len(state) == 1 else "(" + ", ".join(state) + ")"
         sty = " * ".join(self.ct(self.ty(s, v)) for v in state) or "unit"
         ctx = _Ctx(ret=lambda e: f"Ret {self.pack(e)}", fail=lambda e: f"Fail {e}", fall=None, brk=f"Next {tup}",
-                   retp=lambda e: f"Ret {e}")
+                   retp=lambda e: f"Ret {e}", loop_body=True)
         args = lambda mid: " ".join([name] + ro + mid + state)
         sig = lambda mid, struct: " ".join(
             [f"Fixpoint {name}"] + [self.binder(s, v) for v in ro] + [mid] + [self.binder(s, v) for v in state]
@@ -3492,8 +4174,12 @@ class _Fun:
             call = args([term])
         elif kind == "each" and self.containers():
             term, cty, et = self.iterable(s, it, env, h, mutated - ({alias} if alias else set()))
-            if self.ty(s, targets[0]) != et:
+            if pattern is not None:
+                if [self.ty(s, x) for x in pattern] != pair_args(et) or alias is not None:
+                    self.abort(s, f"the loop variables must be declared {pair_args(et)}")
+            elif self.ty(s, targets[0]) != et:
                 self.abort(s, f"the loop variable must be declared {et}")
+            item7 = "(" + ", ".join(pattern) + ")" if pattern is not None else targets[0]
             saved = (getattr(self, "alias", {}), getattr(self, "temp_vars", ()))
             if targets[0] in self.assigned(s.body):
                 # the loop variable holds a list the body updates in place: it is xs[idx'] (alias: the list variable xs the
@@ -3509,14 +4195,14 @@ class _Fun:
                 self.alias, self.temp_vars = saved
                 head = " ".join([f"(fix {name} (it' : {cty})"] + [self.binder(s, v) for v in state]
                                 + [f"{{struct it'}} : flow ({sty}) ({self.RR}) :="])
-                lines = [head, "   match it' with", f"   | nil => Next {tup}", f"   | cons {targets[0]} it'' =>"] \
+                lines = [head, "   match it' with", f"   | nil => Next {tup}", f"   | cons {item7} it'' =>"] \
                     + _ind(_ind(_ind(body))) + ["   end) " + " ".join([term] + state)]
                 return lines, state
             ctx.fall = args(["it''"] + ["(S idx')"] * len(idx))
             body = self.block(s.body, inner_env + targets, ctx)
             self.alias, self.temp_vars = saved
             fix = [sig(f"(it' : {cty})" + " (idx' : nat)" * len(idx), "it'"), "  match it' with", f"  | nil => Next {tup}",
-                   f"  | cons {targets[0]} it'' =>"] + _ind(_ind(body)) + ["  end."]
+                   f"  | cons {item7} it'' =>"] + _ind(_ind(body)) + ["  end."]
             call = args([term] + ["O"] * len(idx))
         elif kind == "each":
             term, cty, et = self.iterable(s, it, env, h, mutated)
@@ -3525,6 +4211,12 @@ class _Fun:
                 if [self.ty(s, x) for x in pattern] != pair_args(et):
                     self.abort(s, f"the loop variables must be declared {pair_args(et)}")
                 item = "(" + ", ".join(pattern) + ")"
+            elif self.unit.seventh and (et, self.ty(s, targets[0])) in self.unit.narrowings:
+                # the items have a wider type than the declared type of the loop variable (keys of a table dimension that
+                # are declared ints): an item of another shape is the declared error
+                nar_pat, nar_err = self.unit.narrowings[(et, self.ty(s, targets[0]))]
+                self.need(nar_err)
+                item = targets[0] + "'k"
             elif self.ty(s, targets[0]) != et and not (self.tables() and self.canon(self.ty(s, targets[0])) == self.canon(et)):
                 self.abort(s, f"the loop variable must be declared {et}")
             if rec_inside:
@@ -3532,6 +4224,8 @@ class _Fun:
                 # inside that function's Fixpoint, over the variables the body assigns (the others are in scope)
                 ctx.fall = " ".join([name, "it''"] + state)
                 body = self.block(s.body, inner_env + targets, ctx)
+                if item == targets[0] + "'k":
+                    body = [f"match {item} with", f"| {nar_pat.format(targets[0])} =>"] + _ind(body) + [f"| _ => Fail {nar_err}", "end"]
                 head = " ".join([f"(fix {name} (it' : {cty})"] + [self.binder(s, v) for v in state]
                                 + [f"{{struct it'}} : flow ({sty}) ({self.RR}) :="])
                 lines = [head, "   match it' with", f"   | nil => Next {tup}", f"   | cons {item} it'' =>"] \
@@ -3539,6 +4233,8 @@ class _Fun:
                 return lines, state
             ctx.fall = args(["it''"])
             body = self.block(s.body, inner_env + targets, ctx)
+            if item == targets[0] + "'k":
+                body = [f"match {item} with", f"| {nar_pat.format(targets[0])} =>"] + _ind(body) + [f"| _ => Fail {nar_err}", "end"]
             fix = [sig(f"(it' : {cty})", "it'"), "  match it' with", f"  | nil => Next {tup}",
                    f"  | cons {item} it'' =>"] + _ind(_ind(body)) + ["  end."]
             call = args([term])
@@ -3637,6 +4333,12 @@ class _Fun:
             if ts[0] in mutated:
                 self.abort(s, "the loop modifies the sequence it iterates")
             return f"(skipn {ts[1]} {ts[0]})", self.ct(t), arg_of(t)
+        if self.singleton_call(a, env) is not None:
+            # (seventh extension) x.m() declared to yield x itself and nothing else (`Unit.singleton_methods`)
+            x, t = self.singleton_call(a, env)
+            if x in mutated:
+                self.abort(s, "the loop modifies the object it iterates")
+            return f"(cons {x} nil)", f"list {self.ctp(t)}", t
         tr = self.traverse_of(a, env)
         if tr is not None:
             # for x in t.traverse(<strategy>): the nodes of t (each the subtree it roots) in that order
@@ -3646,6 +4348,13 @@ class _Fun:
             self.unit.traversals.add((tt, strategy))
             ctt = self.ct(tt)
             return f"({tt}_{strategy} {self.expr(v, tt, env, h)})", f"list {ctt if ' ' not in ctt else '(' + ctt + ')'}", tt
+        if self.unit is not None and self.unit.seventh and self.zip_slices(a, env) is not None:
+            xs, t = self.zip_slices(a, env)
+            if xs in mutated:
+                self.abort(s, "the loop modifies the sequence it iterates")
+            cet = self.ct(arg_of(t))
+            cet = cet if " " not in cet else "(" + cet + ")"
+            return f"(combine (removelast {xs}) (skipn 1 {xs}))", f"list ({cet} * {cet})", f"pair {arg_of(t)} {arg_of(t)}"
         ci = self.container_iter(a, env)
         if ci == "values":
             # for v in d.values(): the values of the items, in order
@@ -3659,7 +4368,7 @@ class _Fun:
             et = arg_of(t)
             if self.tables() and self.iter6(a, env):
                 # a slice of a tuple / the value of a chain (a set or a list read through views): evaluated once, before the loop
-                if any(v in mutated for v in _names([a])):
+                if any(v in mutated for v in _names([a])) and not getattr(a, "snapshot7", False):
                     self.abort(s, "the loop modifies what the sequence it iterates is computed from")
                 return self.expr(a, t, env, h), self.ct(t), et
         elif self.tables() and self.kind(t)[0] == "set" and self.iter6(a, env):
@@ -3682,6 +4391,10 @@ class _Fun:
             return self.expr(a, t, env, h), self.ct(t), et
         if ci == "call":
             return self.expr(a, t, env, h), self.ct(t), et        # the result of the call: a list nothing else names
+        if self.unit is not None and self.unit.seventh and isinstance(a, ast.Call) and isinstance(a.func, ast.Name) \
+                and "->" in self.spec.types.get(a.func.id, "") and a.func.id in self.params and is_list(t):
+            # the list a parameter of function type (a pure total function) returns: evaluated once, before the loop
+            return self.expr(a, t, env, h), self.ct(t), et
         if isinstance(a, ast.Name):
             if a.id in mutated:
                 self.abort(s, "the loop modifies the sequence it iterates")
@@ -3981,6 +4694,26 @@ def translate_function(path: Path, fn: ast.FunctionDef, spec: FunSpec, prefix: s
     return _Fun(path, fn, spec, prefix).translate()
 
 
+class _KwNormalizer(ast.NodeTransformer):
+    """(seventh extension) `f(a, p=b, q=c)` for a function / dataclass whose parameter names the unit knows (`Unit.kwparams`):
+    the positional call `f(a, b, c)` -- only when the keywords are exactly the next parameters, in their order (the
+    evaluation order is then unchanged); any other keyword call is left alone and aborts where it is translated."""
+
+    def __init__(self, kwparams: Dict[str, List[str]], local_names: set):
+        self.kwparams, self.local_names = kwparams, local_names
+
+    def visit_Call(self, node):
+        self.generic_visit(node)
+        if isinstance(node.func, ast.Name) and node.func.id in self.kwparams and node.func.id not in self.local_names \
+                and node.keywords and not any(isinstance(a, ast.Starred) for a in node.args):
+            names = self.kwparams[node.func.id]
+            given = [k.arg for k in node.keywords]
+            if given == names[len(node.args):len(node.args) + len(given)]:
+                node.args = list(node.args) + [k.value for k in node.keywords]
+                node.keywords = []
+        return node
+
+
 class Unit:
     """One generated file: functions and classes of one Python module, translated in the order
     given (a callee before its callers), plus the prelude with exactly the errors/helpers used."""
@@ -4026,6 +4759,18 @@ class Unit:
         self.pure_self_calls = False           # methods declared `pure` may call each other (and `self(..)`) in expressions
         self.fun_defaults: Dict[str, dict] = {}   # translated function -> {parameter: its (int literal) default}
         # fifth extension (all empty / False for the units that do not call `use_containers`)
+        self.seventh = False                   # seventh extension (see `use_seventh`)
+        self.kwparams: Dict[str, List[str]] = {}   # imported function -> its parameter names (keyword arguments at calls)
+        self.externals_res: Dict[str, tuple] = {}  # (seventh extension) imported function that can fail -> (argument types, result type, Coq function)
+        self.mapping_mem: Dict[str, str] = {}      # (seventh extension) mapping type -> Coq function deciding `node in d`
+        self.lookup_lists: Dict[tuple, str] = {}   # (seventh extension) (nodedict type, list type) -> total Coq term for `[d[k]]` ({d}, {k})
+        self.tree_eqb: Dict[str, str] = {}         # (seventh extension) binary tree type -> Coq equality of its node identifiers (`==` on nodes)
+        self.singleton_methods: set = set()        # (seventh extension) (class, method): `x.m()` is the one-element list `[x]`
+        self.noop_methods: set = set()             # (seventh extension) (class, method): `x.m()` as a statement has no modelled effect
+        self.stderr_print = False                  # (seventh extension) `print(<f-string>, file=sys.stderr)` is a no-op statement
+        self.local_sfx: Dict[tuple, str] = {}  # method added in this file to an imported class -> the instance it is for
+        self.snapshot_iteration = False        # `for x in table[a][b]`: the keys are taken at loop entry (see `_Fun.loop`)
+        self.narrowings: Dict[tuple, tuple] = {}   # (item type, declared type of the loop variable) -> (Coq pattern, error)
         self.containers = False                # deque / seqset types, more set methods, dictionaries keyed by elements, ...
         self.set_order: Optional[str] = None   # Section parameter `list A -> list A`: the order in which a set variable is iterated
         self.elemdicts: Dict[str, str] = {}    # dictionary keyed by elements -> declared type of its values
@@ -4138,7 +4883,8 @@ class Unit:
             for n in list(self.markers) + list(self.unions) + ([self.cellspec["name"]] if self.cellspec else []):
                 base.setdefault(n, n)
             if self.cellspec:
-                base["cursor"] = f"list {self.cellspec['key']}"
+                kt_ = self.cellspec['key']
+                base["cursor"] = f"list {self.opaques[kt_][0] if self.seventh and kt_ in self.opaques else kt_}"
         if not self.opaques and not self.enums and not self.datas and not self.classes and not self.outside \
                 and not self.ntrees and not self.foreigns and not self.containers and not self.tables:
             return {}
@@ -4185,6 +4931,23 @@ class Unit:
             where = (glob + star + [b[0] for b in binds] + [self.tree])[0]
             self.abort(where, f"{name!r} is not bound exactly once, by 'from {module} import {name}'")
 
+    # seventh extension
+    def plain_import(self, name: str):
+        """(seventh extension) Abort unless `name` is bound exactly once in the module, by a module-level `import <name>`."""
+        binders = []
+        for n in ast.walk(self.tree):
+            if isinstance(n, ast.Name) and n.id == name and isinstance(n.ctx, (ast.Store, ast.Del)) \
+                    or isinstance(n, (ast.FunctionDef, ast.AsyncFunctionDef, ast.ClassDef)) and n.name == name \
+                    or isinstance(n, ast.arg) and n.arg == name \
+                    or isinstance(n, (ast.Import, ast.ImportFrom)) and any(
+                        (a.asname or a.name).split(".")[0] == name or a.name == "*" for a in n.names) \
+                    or isinstance(n, (ast.Global, ast.Nonlocal)) and name in n.names \
+                    or isinstance(n, ast.ExceptHandler) and n.name == name:
+                binders.append(n)
+        if len(binders) != 1 or not isinstance(binders[0], ast.Import) or binders[0] not in self.tree.body \
+                or not any(a.name == name and a.asname is None for a in binders[0].names):
+            self.abort((binders + [self.tree])[0], f"{name!r} is not bound exactly once, by 'import {name}'")
+
     def rebinds(self, name: str) -> bool:
         """Does anything in the module bind `name` (so that it may not be the built-in of that name)?"""
         for n in ast.walk(self.tree):
@@ -4209,6 +4972,26 @@ class Unit:
     def external(self, name: str, module: str, args: List[str], ret: str, coq: str):
         self.imported(name, module)
         self.externals[name] = (list(args), ret, coq)
+
+    # seventh extension
+    def external_res(self, name: str, module: str, args: List[str], ret: str, coq: str, fresh: bool = False):
+        """(seventh extension) An imported function that can raise: `coq` is a Coq function of the declared argument types
+        returning `res <ret>` in the result type of this file (a wrapper the driver writes); a call is hoisted, in
+        evaluation order, as `match coq args with Err e' => .. | Ok x => ..`.  The function only reads its arguments.
+        `fresh`: the driver's declaration that a list it returns is built by the call (a list variable may be bound to it).
+        `module=None`: a function defined (once, never rebound: checked) by the module under translation itself."""
+        if not self.seventh or name in self.externals or name in self.functions:
+            self.abort(self.tree, f"external_res({name!r}) needs the seventh extension and a name that is not declared otherwise")
+        if module is None:
+            # a function of this module that another part of the generated file translates (the driver's wrapper calls it)
+            self._unique(self.tree.body, name, ast.FunctionDef)
+        else:
+            self.imported(name, module)
+        try:
+            self.externals_res[name] = ([norm_type(a, self.extra_names()) for a in args], norm_type(ret, self.extra_names()), coq, fresh)
+        except ValueError as e:
+            self.abort(self.tree, f"unknown declared type {e.args[0]!r} for {name}")
+        self.taken.add(coq)
 
     def bintree(self, name: str, ident: str) -> str:
         """A type of immutable binary trees walked with `x.is_leaf()` and `a, b = x.children` (ete3): an Inductive whose
@@ -4342,6 +5125,17 @@ class Unit:
         self.containers = True
         self.set_order = set_order
         self.taken.update({"adict_get", "adict_set", "seq_remove", "set_discard", "rev", "list_set"} | ({set_order} if set_order else set()))
+
+    def use_tqdm(self):
+        """`for x in tqdm(xs, ..)` iterates xs (checked: `tqdm` is bound exactly once, by `from tqdm import tqdm`)."""
+        self.imported("tqdm", "tqdm")
+        self.tqdm_ok = True
+
+    def use_seventh(self):
+        """Switch on the seventh extension (used by `translator/spfs_gen.py`)."""
+        self.seventh = True
+        self.tqdm_ok = False
+        self.taken.update({"adict_mem"})
 
     def elemdict(self, name: str, value: str):
         """A dictionary keyed by elements (compared with the Section's `eqb`): the list of its items in insertion order."""
@@ -4500,13 +5294,21 @@ class Unit:
             text.append(f"Definition {name}_parent (p : {name}) : {coq_type(target, b)} := match p with {proj} end.")
         return "\n".join(text)
 
-    def union_methods(self, name: str, specs: List[FunSpec]) -> str:
+    def union_methods(self, name: str, specs: List[FunSpec], extend: bool = False) -> str:
         """The methods of a union: `x.m(..)` on a value of the union calls the method of the class of the object; a class
         that does not have it (translated) answers AttributeError (TypeError for `x[k]` / `x[k] = v`: not subscriptable).
         `specs`: name, parameter types and result type of each method (checked against the members that have it)."""
         members = self.unions[name]
         parts = []
-        self.done_methods[name] = []
+        if not (extend and self.seventh):
+            self.done_methods[name] = []
+        elif any(x.name == sp.name for x in self.done_methods.get(name, []) for sp in specs) \
+                or any((m, _mkey(cm)) not in self.local_methods for sp in specs for m in members
+                       for cm in self.done_methods.get(m, []) if cm.name == sp.name):
+            # (seventh extension) one more method of a union imported from another generated file: the members' methods
+            # are methods added in this file
+            self.abort(self.tree, f"a method added to the union {name} must be new and translated in this file")
+        qn = self.q(name) if extend else ""
         b = self.coq_base()
         for spec in specs:
             spec = self._norm(self.tree, spec)
@@ -4530,12 +5332,12 @@ class Unit:
                 cm = next((x for mm, x in having if mm == m), None)
                 if cm is None:
                     self.errors.add("TypeError" if spec.name in ("__getitem__", "__setitem__") else "AttributeError")
-                    rows.append(f"  | {name}_{m} _ => Err " + ("TypeError" if spec.name in ("__getitem__", "__setitem__") else "AttributeError"))
+                    rows.append(f"  | {qn}{name}_{m} _ => Err " + ("TypeError" if spec.name in ("__getitem__", "__setitem__") else "AttributeError"))
                     continue
                 uses |= self.method_uses_vars.get((m, _mkey(cm)), set())
                 uses_eqb = uses_eqb or self.method_uses_eqb.get((m, _mkey(cm)), False)
                 call = " ".join([self.prefix + (cm.alias or cm.name), "s"] + ps)
-                rows.append(f"  | {name}_{m} s => match {call} with Err e' => Err e' | Ok (s, r') => Ok ({name}_{m} s, r') end")
+                rows.append(f"  | {qn}{name}_{m} s => match {call} with Err e' => Err e' | Ok (s, r') => Ok ({qn}{name}_{m} s, r') end")
             alias = spec.alias or f"{name}_{spec.name.strip('_')}"
             spec = replace(spec, alias=alias)
             self.done_methods[name].append(spec)
@@ -4544,10 +5346,12 @@ class Unit:
                 self.varargs[(name, spec.name)] = var
             self.method_uses_vars[(name, spec.name)] = uses
             self.method_uses_eqb[(name, spec.name)] = uses_eqb
+            if extend and self.seventh:
+                self.local_methods.add((name, _mkey(spec)))
             binders = "".join(f" ({q} : {coq_type(spec.types[q], b)})" for q in ps)
             rt = coq_type(spec.ret, b)
             parts.append("\n".join([f"(* {name}: {spec.name} of the class of the object *)",
-                                    f"Definition {self.prefix}{alias} (p : {name}){binders} : res ({name} * {rt}) :=",
+                                    f"Definition {self.prefix}{alias} (p : {coq_type(name, b) if extend else name}){binders} : res ({coq_type(name, b) if extend else name} * {rt}) :=",
                                     "  match p with"] + rows + ["  end."]))
         return "\n\n".join(parts)
 
@@ -4593,6 +5397,10 @@ class Unit:
             self.quals[n] = other.quals.get(n, alias)
             self.targs[n] = targs.get(n, other.targs.get(n, ""))
         var_terms = var_terms or {}
+        if self.seventh:
+            self.imported_var_terms = dict(getattr(self, "imported_var_terms", {}), **var_terms)
+            if other.cellspec:
+                self.cell_lift = lift
         for c, ms in other.done_methods.items():
             want = {n: a for (cc, n), a in (choose or {}).items() if cc == c}
             ms = [m for m in ms if m.name not in want or (m.alias or m.name) == want[m.name]]
@@ -4843,7 +5651,14 @@ class Unit:
     def function(self, spec: FunSpec) -> str:
         fn = self._unique(self.tree.body, spec.name, ast.FunctionDef)
         spec = self._norm(fn, spec)
-        fun = _Fun(self.path, copy.deepcopy(fn), spec, self.prefix, unit=self)
+        fn2 = copy.deepcopy(fn)
+        if self.seventh and self.kwparams:
+            kw = dict(self.kwparams)
+            kw.update({n: list(d.fields) for n, d in self.datas.items() if n not in kw})
+            # a frozen dataclass kept as a Record of this file (`record_class`): the fields in the declared order
+            kw.update({n: list(self.classes[n].fields) for n in getattr(self, "records", ()) if n not in kw})
+            fn2 = _KwNormalizer(kw, set(spec.types)).visit(fn2)
+        fun = _Fun(self.path, fn2, spec, self.prefix, unit=self)
         text = fun.translate()
         if self.tables:
             self.method_uses_vars[spec.name] = set(fun.uses_vars)
@@ -4992,12 +5807,15 @@ class Unit:
         self.done_methods[cspec.name].append(m)
         return text
 
-    def method(self, cname: str, m: FunSpec) -> str:
-        """One more method of the class `cname` translated earlier (used after `begin_outside`)."""
+    def method(self, cname: str, m: FunSpec, other: "Unit" = None) -> str:
+        """One more method of the class `cname` translated earlier (used after `begin_outside`).  `other` (seventh extension):
+        the unit -- imported with `import_unit` -- whose source file holds the class."""
         cspec = self.classes.get(cname)
         if cspec is None:
             self.abort(self.tree, f"class {cname} is not translated yet")
-        cls = self._unique(self.tree.body, cname, ast.ClassDef)
+        if other is not None and not (self.seventh and cname in self.quals and cname in other.classes):
+            self.abort(self.tree, f"class {cname} is not a class imported from the given unit")
+        cls = self._unique((other or self).tree.body, cname, ast.ClassDef)
         m = self._norm(cls, m)
         self.classes[cname] = cspec = replace(cspec, methods=cspec.methods + [m])
         return self._method(cls, cspec, m)
